@@ -22,6 +22,9 @@ func (e *Engine) newObject(name string, t types.Type) *Object {
 }
 
 func (e *Engine) zero(t types.Type) Value {
+	if n, ok := t.(*types.Named); ok && n.Obj().Pkg() != nil && n.Obj().Pkg().Path() == "time" && n.Obj().Name() == "Time" {
+		return &OpaqueV{kind: "time", data: e.c64(0)}
+	}
 	switch u := t.Underlying().(type) {
 	case *types.Basic:
 		if isBoolType(t) {
